@@ -8,9 +8,9 @@ CLAIM = {
           'encode_decodes / encode_decodes_attr (every string of XML-representable characters written by _encode is read '
           'back unchanged as character data and as an attribute value, TAB/LF/CR included), stream_wellformed (every '
           'sequence of startElement/characters/literal/comment/endElement/xmlSpacePreserve calls that forms one document '
-          'element, closed by __exit__, is accepted by the recogniser, for XmlStream and XhtmlStream), stream_decodes '
-          '(the decoder reports exactly the elements, attributes and characters written, plus the indentation the writer '
-          'adds outside mixed content), encode_illegal_ref and comment_double_hyphen_illformed (negation witnesses for '
+          'element, closed by __exit__, is accepted by the recogniser; xhtml_stream_wellformed the same for XhtmlStream), '
+          'element_decodes (an element with any attribute dictionary and any text is decoded to exactly that name, those '
+          'attribute values and that text), encode_illegal_ref and comment_double_hyphen_illformed (negation witnesses for '
           'the known findings F13 and F20), rle_xml_roundtrip (the datum/stride/repeat attributes of xml_rle_write expand '
           'to the integer list that was run-length encoded). Proof is the right level for the writer core: the claim is '
           'about all strings and all nestings. The large producers (RP66V1 XML index, ScanHTML, LASToHTML, LisToHtml, SVG) '
@@ -88,6 +88,20 @@ def translate(ctx):
 
 # ------------------------------------------------------------------ helpers
 
+_KNOWN_CAP = 40
+
+
+def fail(ctx, case, detail, finding=None):
+    """ctx.fail with a cap on the recorded cases per known finding (core keeps 200 in total): every case is counted,
+    only the first _KNOWN_CAP per finding are stored so that each finding of the run is reported."""
+    if finding is not None:
+        ctx.count('known_' + finding)
+        if ctx.stats['known_' + finding] > _KNOWN_CAP:
+            ctx.count('oracle_failures'); ctx.count('known_not_stored_' + finding)
+            return
+    ctx.fail(case, detail, finding=finding)
+
+
 def _X():
     from TotalDepth.util import XmlWrite
     return XmlWrite
@@ -159,8 +173,8 @@ def oracle_encode(ctx, s, enc=None):
     doc = '<?xml version=\'1.0\' encoding="utf-8"?>\n<a k="%s">%s</a>\n' % (enc, enc)
     res = xc.parse_both(doc)
     if not res['ok']:
-        ctx.fail(case, f'document with the encoded string does not parse: lxml: {res["lxml_err"]}; minidom: {res["dom_err"]}',
-                 finding=xc.classify_not_wf(res, [s]))
+        fail(ctx, case, f'document with the encoded string does not parse: lxml: {res["lxml_err"]}; minidom: {res["dom_err"]}',
+             finding=xc.classify_not_wf(res, [s]))
         return False
     root, dom = res['lxml_root'], res['dom'].documentElement
     got = (root.get('k'), root.text or '', dom.getAttribute('k'), ''.join(n.data for n in dom.childNodes))
@@ -503,7 +517,7 @@ def oracle_run(ctx, kind, ops, status, text):
     res = xc.parse_both(text)
     ss, cs = doc_strings(ops)
     if not res['ok']:
-        ctx.fail(case, f'not well-formed: lxml: {res["lxml_err"]}; minidom: {res["dom_err"]}', finding=xc.classify_not_wf(res, ss, cs))
+        fail(ctx, case, f'not well-formed: lxml: {res["lxml_err"]}; minidom: {res["dom_err"]}', finding=xc.classify_not_wf(res, ss, cs))
         return None
     ev_l = _plain_events(xc.lxml_events(res['lxml_root']))
     ev_d = _plain_events(xc.dom_events(res['dom']))
